@@ -3,6 +3,8 @@ package props
 import (
 	"fmt"
 	"go/types"
+	"regexp"
+	"strconv"
 	"strings"
 
 	"golang.org/x/tools/go/ssa"
@@ -252,7 +254,6 @@ func C18(p *ir.Program, r *report.R) {
 		r.Check("K2", name+"/whole-frame-reads", p.Pos(fn.Pos()), len(partial) == 0 && nFull >= 2, fmt.Sprintf("frame header and body are read with io.ReadFull (%d); plain Read on the transport: %v", nFull, partial))
 	}
 
-
 	// ---- the challenge hash is the hash of the whole input ---------------------------------------------
 	// hash.Hash.Sum(b) APPENDS the digest of what was written to b: handing it the data instead of writing
 	// the data first returns data||sha256("") and the "hash" is the first 32 input bytes (the low
@@ -282,6 +283,50 @@ func C18(p *ir.Program, r *report.R) {
 			}
 		}
 		r.Check("K11", "conn/hash32/hashes-its-input", p.Pos(h.Pos()), okIn && n >= 1, "hash32 writes its whole input into the hasher")
+	}
+
+	// ---- fresh ephemeral keys for every handshake ----------------------------------------------------------------
+	// The challenge that the remote signs is built from both ephemeral keys; a verifier that reuses its
+	// ephemeral key accepts a recorded handshake again. genEphKeys draws a new pair from crypto/rand on
+	// every call: directly in its body, on every path, not inside a once-only closure.
+	{
+		ge := p.Func("libs/p2p/conn", "genEphKeys")
+		direct := ir.Calls(ge, "box.GenerateKey")
+		okD := len(direct) >= 1
+		for _, d := range direct {
+			if d.Parent() != ge {
+				okD = false
+			}
+			if !strings.Contains(Arg(d, 0), "rand.Reader") {
+				okD = false
+			}
+		}
+		found := true
+		if okD {
+			found, _, _ = ir.FindPath(ir.PathQuery{From: ir.Entry(ge), Target: ir.IsReturn, Avoid: ir.CallMatcher("box.GenerateKey")})
+		}
+		r.Check("K2", "conn.genEphKeys/fresh-pair-on-every-call", p.Pos(ge.Pos()), okD && !found && len(ir.Calls(ge, "sync.Once.Do")) == 0, "box.GenerateKey(crypto/rand.Reader) runs on every path through genEphKeys")
+		// and the results are what is returned
+		for _, rt := range ir.Returns(ge) {
+			r.Check("K2", "conn.genEphKeys/returns-the-new-pair", p.InstrPos(rt.Instr), strings.HasPrefix(ir.Render(rt.Results[0]), "box.GenerateKey(") && strings.HasPrefix(ir.Render(rt.Results[1]), "box.GenerateKey("), "the returned keys are the generated ones: "+short(ir.Render(rt.Results[0]), 60))
+		}
+	}
+
+	// ---- the receive limit leaves room for any channel id ---------------------------------------------------------
+	// maxPacketMsgSize is computed from a sample packet on channel 0x01; ids >= 0x80 encode in one byte
+	// more. The slack added to the sample's size covers that (and encoding changes): a full packet on any
+	// channel must fit the receiver's limit.
+	{
+		mp := p.Func("libs/p2p/conn", "MConnection.maxPacketMsgSize")
+		for _, rt := range ir.Returns(mp) {
+			v := ir.Render(rt.Results[0])
+			m := regexp.MustCompile(`^\(len\(ser\.MustEncodeToBytesWithType\(.*\)\) \+ (\d+)\)$`).FindStringSubmatch(v)
+			slack := 0
+			if m != nil {
+				slack, _ = strconv.Atoi(m[1])
+			}
+			r.Check("K11", "conn.(*MConnection).maxPacketMsgSize/slack", p.InstrPos(rt.Instr), slack >= 2, fmt.Sprintf("limit = size of a sample full packet + slack >= 2 bytes (found %d): %s", slack, short(v, 100)))
+		}
 	}
 
 	// ---- every channel reassembles in its own buffer ---------------------------------------------------------
